@@ -165,6 +165,52 @@ GRID = sorted(set([F(k) for k in range(-9, 10)] + [F(k, 2) for k in range(-9, 10
                   [F(k, 16) for k in (-3, -1, 1, 3, 5, 23, 25)] + [F(32), F(-32), F(100), F(-100)]))
 
 
+# sparse polynomials of degree 5..8 (large powers) and 9..11 (products with low-degree numbers): long remainder
+# sequences with DEGREE GAPS in the library's subresultant code (S_e_optimized), cheap for the reference
+HIGH_POW = [[-3, 0, 0, 0, 0, 0, 1], [-2, 0, 0, 0, 0, 1], [-1, -1, 0, 0, 0, 0, 0, 1], [-5, 0, 0, 0, 0, 0, 0, 0, 1],
+            [-2, 0, 0, 0, 0, 0, 1], [-1, -1, 0, 0, 0, 1], [-3, 0, 0, 0, 0, 0, 0, 1], [1, -3, 0, 0, 0, 0, 1], [-7, 0, 0, 0, 0, 2]]
+HIGH_MUL = [[-2] + [0] * 10 + [1], [-3] + [0] * 8 + [1], [-2] + [0] * 9 + [1], [-1, -1] + [0] * 7 + [1], [-5] + [0] * 10 + [1],
+            [-3] + [0] * 10 + [2]]
+LOW_MUL = [SQRT2, SQRT3, CBRT2, GOLD, [-5, 0, 1], [-1, -1, 0, 1], [1, -3, 0, 1], [-3, 0, 0, 1]]
+
+
+def root_token(rng, p, positive=True):
+    P = Poly.get(p)
+    idx = P.nroots - 1 if positive else rng.randrange(P.nroots)
+    if rng.random() < 0.5:
+        return "r:%s:%d" % (coeffs(p), idx)
+    return alg_token(rng, p, idx)[0]
+
+
+def high_degree_case(rng):
+    """large powers of degree 5..8 numbers; sums / products of a degree 2..3 with a degree 9..11 number"""
+    k = rng.random()
+    if k < 0.5:
+        x = root_token(rng, rng.choice(HIGH_POW), rng.random() < 0.7)
+        n = rng.randint(5, 13)
+        steps = ["pow:1:0:%d" % n, "sgn:1", rng.choice(["floor:1", "ceil:1", "cmpz:1:f", "isint:1", "cmpd:1:m"])]
+        if rng.random() < 0.4:
+            steps += ["pow:2:0:%d" % rng.randint(5, 13), "cmp:1:2"]
+        return "seq %s | %s" % (x, " ".join(steps))
+    if k < 0.9:
+        op = rng.choice(["mul", "mul", "div", "add", "sub"])
+        if op in ("add", "sub"):
+            # sums are dense: keep to degree 2 with degree 9..10 (reference cost ~0.1 s)
+            x = root_token(rng, rng.choice([SQRT2, SQRT3, GOLD, [-5, 0, 1]]), rng.random() < 0.6)
+            y = root_token(rng, rng.choice([[-3] + [0] * 8 + [1], [-2] + [0] * 9 + [1], [-1, -1] + [0] * 7 + [1]]), rng.random() < 0.7)
+        else:
+            x = root_token(rng, rng.choice(LOW_MUL), rng.random() < 0.6)
+            y = root_token(rng, rng.choice(HIGH_MUL), rng.random() < 0.7)
+        if rng.random() < 0.5:
+            x, y = y, x
+        steps = ["%s:2:0:1" % op, "sgn:2", rng.choice(["floor:2", "ceil:2", "cmpz:2:f", "isint:2", "cmpd:2:m"])]
+        return "seq %s %s | %s" % (x, y, " ".join(steps))
+    # two binomials of coprime degrees
+    x = root_token(rng, rng.choice([[-3, 0, 0, 0, 0, 0, 1], [-2, 0, 0, 0, 0, 1], [-2, 0, 0, 0, 0, 0, 0, 1]]))
+    y = root_token(rng, rng.choice([[-2] + [0] * 10 + [1], [-3] + [0] * 8 + [1]]))
+    return "seq %s %s | %s:2:0:1 sgn:2 floor:2 cmpd:2:m" % (x, y, rng.choice(["mul", "div"]))
+
+
 def random_poly(rng):
     while True:
         d = rng.choice([2, 3, 3, 4, 4])
@@ -403,6 +449,8 @@ COLLAPSE = [
 
 
 def one_case(rng, tier):
+    if rng.random() < 0.05:
+        return high_degree_case(rng)
     kind = rng.random()
     if kind < 0.04:
         pool, steps = rng.choice(COLLAPSE)
@@ -515,6 +563,8 @@ def tag(case):
         return "sequence"
     if any(s.startswith("point:") for s in t[bar + 1:]):
         return "touching"
+    if any(len(x.split(":")) > 1 and x[0] in "ra" and x.split(":")[1].count(",") >= 5 for x in t[1:bar]):
+        return "highdeg-" + t[bar + 1].split(":")[0]
     if bar + 1 >= len(t):
         return "construct"
     return t[bar + 1].split(":")[0]
@@ -555,6 +605,6 @@ RULE = ("seeded structured generator gen/C07.py: operands from fixed / random / 
         "single operations with fresh / pre-used / aliased outputs, comparisons of equal numbers in different representations, "
         "scalar comparisons at the interval ends / floor / ceiling, and operation sequences with results fed back; "
         "distinct = distinct case line; non-trivial = has an irrational-style operand token")
-ASSUMPTIONS = ["operand degrees <= 4, products of degrees <= 16 (larger steps are skipped by the harness: the reference resultants are determinant based)",
+ASSUMPTIONS = ["general operands of degree <= 4 with products of degrees <= 16; sparse operands of degree 5..8 raised to powers <= 13; a degree <= 3 with a degree <= 11 operand; two binomials with degree product <= 70 (other steps are skipped by the harness: the reference resultants are determinant based)",
                "lp_upolynomial_gcd, coefficient_resultant, lp_upolynomial_roots_isolate and the dyadic interval arithmetic are exercised only through the algebraic-number operations (C03/C04/C06/C15 check them directly)"]
 TRUSTED = ["RefAlg.v reference arithmetic (Sturm counting, Bareiss resultants) is the oracle of the denotation checks; it is not proved correct (category translation_validation)"]
